@@ -110,6 +110,8 @@ def _cases(tier, seed):
         for rows in (1, 2, 3):
             cs.append({'scen': 'tt_apply_mask', 's': {'N': N, 'R': R, 'rows': rows, 'dtype': 'float64'}})
     cs.append({'scen': 'tt_apply_mask', 's': {'N': [2, 3], 'R': [1, 2, 1], 'rows': 2, 'dtype': 'complex128'}})
+    for N, R in [([3], [1, 1]), ([2, 3], [1, 2, 1]), ([2, 2, 3], [1, 1, 2, 1])]:
+        cs.append({'scen': 'tt_apply_mask', 's': {'N': N, 'R': R, 'rows': 2, 'dtype': 'float64', 'negative': True}})
     # ---- shape level: symbolic mode sizes, symbolic integer indices and symbolic slice bounds
     SH = {'shim': 'shape', 'scalar_mode': 'A', 'logic': None, 'max_paths': 3000 if not th else 20000, 'case_timeout_s': 200 if not th else 1500}
     Bs = 3 if not th else 4
